@@ -11,9 +11,12 @@ RULE = ('flat and universe decks whose cells get per-particle importances (n, p,
         'compressed by the generator into nR / xM / nI shorthand (any position, zero cells first / middle / last, '
         'cells listed in non-ascending number order). Checked on the real output: the set of omitted level-0 cells '
         '(no VOLU, listed in the NOTE) equals the set of cells whose importance is zero for every particle; every '
-        'other cell owns its points (Lean point monitor). Helper stream: expand_data_card vs the Lean model on '
+        'other cell owns its points (Lean point monitor); the importance the code gave every cell equals the Lean '
+        'model cellImportance of its keywords / the expanded data cards (cellimp). Helper stream: expand_data_card vs the Lean model on '
         'random shorthand token lists. Non-trivial = deck has both zero and non-zero importance cells.')
-NOT_PROVED = []
+NOT_PROVED = ['that the per-particle keyword values handed to cellImportance are those of the card after LIKE n BUT '
+              '(later value of a particle wins) is C15 later_importance_wins; importances are assumed non-negative in '
+              'maximum_zero_iff_all_zero (MCNP does not allow negative importances)']
 ASSUMPTIONS = ['no nJ entries in IMP cards (the converter cannot give such a cell an importance)']
 PARTS = ['n', 'p', 'e']
 
@@ -116,7 +119,7 @@ def run_case(stream, seed, ctx, params):
             else:
                 c.hints['imp_text'] = ' '.join('imp:%s=%s' % (p, fmt(table[c.id][p], rng)) for p in parts)
     text = render_with_imp(d, rng)
-    res = impl.convert(text, [])
+    res, cap = C.convert_capture(text, [])
     key = h(text)
     zero = sorted(c.id for c in d.cells if c.imp == 0)
     has_both = bool(zero) and len(zero) < len(d.cells)
@@ -129,6 +132,21 @@ def run_case(stream, seed, ctx, params):
         fails.append(fail('violation', 'valid deck rejected: %s: %s' % (res.exc_type, (res.exc_msg or '')[:200]),
                           {'stream': 'imp', 'class': 'exception', 'error': res.exc_type}, replay))
         return dict(hashes=[key], nontrivial_hashes=[key], dist=dist, sample=None, failures=fails)
+    # the Lean model of the decision (maximum of the IMP keywords of the card if any, else the entry at the card's
+    # position of the per-rank maximum of the expanded data cards) vs the importance the code gave each cell
+    if cap.cells_after is not None:
+        req = '(imp (cells %s) (cards %s))' % (
+            ' '.join('(c %s)' % ' '.join(repr(float(table[c.id][p])) for p in parts if c.id in on_card) for c in d.cells),
+            ' '.join('(card %s)' % ' '.join(toks) for toks in (d.imp_cards or {}).values()))
+        resp = ctx['drv'].ask('cellimp ' + lean.hx(req))
+        import struct
+        code_imp = ' '.join('none' if c.id not in cap.cells_after or cap.cells_after[c.id]['imp'] is None else
+                            str(struct.unpack('<Q', struct.pack('<d', float(cap.cells_after[c.id]['imp'])))[0])
+                            for c in d.cells)
+        if resp != 'ok ' + code_imp:
+            fails.append(fail('disagreement', 'importances: code %s / model %s' % (code_imp[:300], resp[:300]),
+                              {'stream': 'imp', 'stage': 'cellimp'}, dict(replay, request=req)))
+        dist['imp:cellimp-compared'] = 1
     note = res.skipped_note() or []
     if sorted(note) != zero:
         fails.append(fail('violation', 'cells omitted per the NOTE %s ≠ cells of zero importance %s' % (sorted(note), zero),
